@@ -462,10 +462,23 @@ func (c *chroniclerV2) Write(treasures []treasure.Treasure) {
 		}
 
 		// Write the entry to persistent writer
+		// A previous entry of this batch may have failed and taken the writer with
+		// it (see below); a fresh writer repairs the file before appending.
+		if err := c.ensureWriter(); err != nil {
+			slog.Error("cannot initialize swamp file writer",
+				"path", c.hydFilePath,
+				"error", err)
+			t.ReleaseTreasureGuard(guardID)
+			continue
+		}
 		if err := c.writer.WriteEntry(entry); err != nil {
 			slog.Error("cannot write entry to swamp file",
 				"key", key,
 				"error", err)
+			// After a failed write the file may end in a torn block and the file
+			// position is unknown. Appending with the same writer would bury every
+			// later block behind the torn one, so give the writer up.
+			c.dropWriter()
 			t.ReleaseTreasureGuard(guardID)
 			continue
 		}
@@ -612,11 +625,13 @@ func (c *chroniclerV2) runCompactionLocked() error {
 	// Close the writer so its file handle is released and all buffered data
 	// is flushed before the compactor reads the file.
 	if c.writer != nil && !c.writerClosed {
-		if err := c.writer.Close(); err != nil {
-			return err
-		}
+		err := c.writer.Close()
+		// closed cleanly or not, this writer is finished (see dropWriter)
 		c.writerClosed = true
 		c.writer = nil
+		if err != nil {
+			return err
+		}
 	}
 
 	// Defensively wipe any leftover temp from a previously crashed run before
@@ -722,14 +737,16 @@ func (c *chroniclerV2) Close() error {
 	// Close the writer if currently open. Skip cleanly if already closed
 	// or never opened — we still want the compaction check below to run.
 	if c.writer != nil && !c.writerClosed {
-		if err := c.writer.Close(); err != nil {
+		err := c.writer.Close()
+		// closed cleanly or not, this writer is finished (see dropWriter)
+		c.writerClosed = true
+		c.writer = nil
+		if err != nil {
 			slog.Error("failed to close V2 chronicler writer",
 				"path", c.hydFilePath,
 				"error", err)
 			return err
 		}
-		c.writerClosed = true
-		c.writer = nil
 		slog.Debug("V2 chronicler closed",
 			"path", c.hydFilePath)
 	}
@@ -752,7 +769,24 @@ func (c *chroniclerV2) Sync() error {
 		return nil
 	}
 
-	return c.writer.Sync()
+	if err := c.writer.Sync(); err != nil {
+		c.dropWriter()
+		return err
+	}
+	return nil
+}
+
+// dropWriter gives up the persistent writer after an I/O error. A failed write,
+// seek or sync leaves the file position and possibly a torn block behind; the
+// next ensureWriter opens the file afresh, which cuts a torn tail back to the
+// last complete block before anything is appended.
+// Must be called with lock held.
+func (c *chroniclerV2) dropWriter() {
+	if c.writer != nil {
+		c.writer.Abort()
+	}
+	c.writer = nil
+	c.writerClosed = true
 }
 
 // gobEncode is a helper for GOB encoding
